@@ -12,6 +12,10 @@ decorators (masked/insert_missing, partial, synchronized, suppressed, clipped)
 address exactly the given entries in the documented roles/order.
 Round 3: bounded() decides membership on closed intervals, stores only the out-
 of-bounds entries restricted to index, and works on a copy.
+Round 4: index selections are filtered position by position (repair d3fb023: no
+all-or-nothing fancy assignment), bounded converts negative indices (repair
+4b664b8) and None bounds row by row; impose_variance / impose_spread return the
+samples unchanged only when statistic and target are both zero.
 NOT decided: landing in the target set on concrete vectors, idempotence, the
 numerics of impose_bounds / unique.
 """
